@@ -329,6 +329,8 @@ class Interp:
         b = self.deref(b)
         if isinstance(b, IterV):
             b = b.vec
+        if isinstance(idx, Opaque) and idx.what == "rangefull":
+            return b
         if isinstance(idx, Struct) and idx.path == "Range":
             lo = idx.fields.get("start") or IntV(0)
             hi = idx.fields.get("end")
@@ -509,6 +511,9 @@ class Interp:
             for le_, x in zip(e["l"]["es"], v.items):
                 self.place(le_, env).set(x)
             return UNIT
+        if e["l"]["k"] == "Path" and e["l"]["res"]["k"] == "Local":
+            env[e["l"]["res"]["id"]] = v  # rebinding (also of reference-typed locals)
+            return UNIT
         self.place(e["l"], env).set(v)
         return UNIT
 
@@ -634,6 +639,9 @@ class Interp:
             return sp.Integer(int(a) // 2)
         if a.func == sfun("pow2") or (a.is_Function and a.func.__name__ == "pow2"):
             return sfun("pow2")(sp.expand(a.args[0] - 1))
+        hv = sp.expand(a / 2)
+        if all(c.is_Integer for c in hv.as_coefficients_dict().values()):
+            return hv
         return None
 
     def ite_lift(self, f, *vals):
